@@ -221,7 +221,7 @@ def check_equiv(ctx: Ctx, mode: dict, program_text: Optional[str] = None, label:
     return out
 
 
-def blame(ctx: Ctx, mode: dict, inst: list) -> dict:
+def blame(ctx: Ctx, mode: dict, inst: list, only_unsafe: bool = False) -> dict:
     """first stage of the recorded trace that is not equivalent to the source on this instance"""
     rec = ctx.rec
     assert rec is not None
@@ -234,7 +234,7 @@ def blame(ctx: Ctx, mode: dict, inst: list) -> dict:
             bad = None
             if res.status != "ok" or any(c == "RuntimeError" for c, _ in res.messages):
                 bad = {"kind": "unsafe-output", "error": res.error[:200] or str([m for c, m in res.messages if c == "RuntimeError"][:1])[:200]}
-            else:
+            elif not only_unsafe:
                 d = compare(ctx, mode, src, res)
                 if d:
                     bad = {"kind": "not-equivalent", "diff": d}
